@@ -104,6 +104,16 @@ def c10Socks (a : SocksAnswer) : String :=
 
 def c10 (toks : List String) : String :=
   match toks with
+  | ["errno", n] =>
+    match n.toNat? with
+    | some e =>
+      let err := connErrOfErrno e
+      let w := warnOf err
+      let warn := match w.filterMap (fun x => match x with | .warn c => some c | _ => none) with
+        | c :: _ => toString c
+        | [] => "-"
+      s!"{statusOf err} {warn} {if w.contains .challenge then 1 else 0} {if w.contains .dnshost then 1 else 0}"
+    | none => "bad-op"
   | ["socks", "closed"] => c10Socks .closed
   | ["socks", "malformed"] => c10Socks .malformed
   | ["socks", rep] =>
